@@ -150,6 +150,19 @@ CLAIMS = {
              'the object is not locked for update, raises OptimisticCheckError on zero affected rows, and runs the UPDATE inside the transaction.',
         note='Schedules of concurrent sessions are outside the technique; atomic evaluation of the WHERE clause by the database is assumed. Bounds: one entity, 5 column attributes.',
         technique='contracts on real functions, bounded exhaustive enumeration of read/write sets (contract-based family, bounded stand-in)'),
+    'C01': dict(
+        text='PARTIAL proof, for the truth-test and negation mechanisms the property names: real monads of a real translator (SQLite / PostgreSQL / MySQL / Oracle code paths); the SQL of '
+             'x.nonzero() and x.negate() for nullable and required int / bool / str attributes, arithmetic expressions, boolean expressions and objects, evaluated under SQL three-valued logic '
+             'over a symbolic row (every column (is_null, value)), keeps a row iff Python truth of x / not x (missing values falsy); CmpMonad.negate and BoolExprMonad.negate are the 3VL NOT of the '
+             'original condition and involutive. String slicing (C25), LIKE (C06) and limit/offset (C24) are checked under those properties.',
+        note='The translator as a whole (monad dispatch, joins, subqueries, aggregates, row decoding, hybrid methods) is out of reach of per-function contracts and NOT covered. '
+             'Trusted: the 3VL evaluator; strings represented by their length; monad.nullable accurate.'),
+    'C02': dict(
+        text='PARTIAL, derived: the dialect-quantified contracts of C01 (truth tests), C06 (string literals per value class, LIKE escape per dialect, MOD), C24 (LIMIT without bound per dialect) '
+             'and C25 (string slicing per dialect) are re-run with the dialect as configuration; each dialect code path is proved equal to the same dialect-independent Python meaning under '
+             'the dialect semantics of the specification library, so agreement between dialects is the corollary; plus boolean / NULL / integer literal forms per dialect value class.',
+        note='No PostgreSQL / MySQL / Oracle server or driver is available: server behaviour is represented by documented-semantics clauses (assumed contracts on dependencies; SQLite clauses are '
+             'validated against the real engine). Only mechanisms under contract are compared, not whole queries. Known findings of C25 / C06 reappear here.'),
 }
 
 _NOT_BUILT = 'within reach of the technique per DESIGN.md, check not built yet'
